@@ -392,3 +392,12 @@ Proof.
   - destruct (set_local s ty); discriminate.
   - destruct (set_remote s ty d0); discriminate.
 Qed.
+
+Lemma trace_mids_distinct ops :
+  remote_ok ops -> numbering_ok_all ops ->
+  forall s o out s', In (s, o, out, s') (trace ops) ->
+  NoDup (set_mids (trs s)) /\ NoDup (set_mids (trs s')).
+Proof.
+  intros Hr Hn s o out s' Hin.
+  destruct (trace_from_inv ops init inv_init Hr Hn _ _ _ _ Hin) as [[A _] [B _]]. split; assumption.
+Qed.
